@@ -1416,6 +1416,8 @@ func ruleResumePositionNotBySign(h *H, rule string) {
 					_, rk := x.Y.(*ssa.Const)
 					if (rk && isOffsetLoad(x.X)) || (lk && isOffsetLoad(x.Y)) {
 						bad = "the start offset is left out depending on the value of the last received offset (" + x.Op.String() + " a constant)"
+					} else if b, ok := x.X.Type().Underlying().(*types.Basic); ok && b.Info()&types.IsBoolean != 0 {
+						sawState = true // `flag == true`
 					}
 				default:
 					if b, ok := c.Type().Underlying().(*types.Basic); ok && b.Kind() == types.Bool {
@@ -1765,7 +1767,7 @@ func ruleSyncLoopAvoidsProducersMutex(h *H, rule string) {
 		})
 		if hasRecv {
 			drains[fn] = true
-			if len(h.P.CallsIn(fn, segFlush)) > 0 {
+			if ok, _ := h.P.StaticReaches(fn, h.P.MatchPred(segFlush)); ok {
 				consumers = append(consumers, fn)
 			}
 		}
@@ -1787,15 +1789,67 @@ func ruleSyncLoopAvoidsProducersMutex(h *H, rule string) {
 			}
 			return false
 		}
-		bad := false
-		for _, o := range ir.LockOps(fn) {
-			if (o.Op != "Lock" && o.Op != "RLock") || !mayHeld[clean(o.Lock)] {
-				continue
+		// the loop body may be spread over extracted helpers: a call to a helper that flushes
+		// (takes a producers' mutex) counts as a flush (an acquisition) at the call site, and the
+		// helper's own body is checked for an acquisition after its flush
+		region := helperFuncs(fn)
+		inRegion := map[*ssa.Function]bool{}
+		for _, g := range region {
+			inRegion[g] = true
+		}
+		locksIn := map[*ssa.Function]string{}
+		for _, g := range region {
+			for _, o := range ir.LockOps(g) {
+				if (o.Op == "Lock" || o.Op == "RLock") && mayHeld[clean(o.Lock)] {
+					locksIn[g] = o.Lock
+				}
 			}
-			for _, f := range h.P.CallsIn(fn, segFlush) {
-				if r, path := ir.Reach(ir.Search{From: f, Barrier: drained}, ir.Is(o.Instr)); r {
-					bad = true
-					h.Bad(rule, "mutex taken after the flush in "+ir.FuncName(fn), h.pos(o.Instr), "the sync loop acquires "+o.Lock+" after the flush without having received from the request channel: an appender that holds this mutex while waiting for room in the (bounded) channel and the sync loop wait for each other — the log stops", witness(path))
+		}
+		flushEv := func(g *ssa.Function) []ssa.Instruction {
+			var out []ssa.Instruction
+			ir.Instrs(g, func(in ssa.Instruction) {
+				c := ir.CallOf(in)
+				if c == nil {
+					return
+				}
+				if h.P.Matches(c, segFlush) {
+					out = append(out, in)
+				} else if callee := c.StaticCallee(); callee != nil && callee != g && inRegion[callee] {
+					if ok, _ := h.P.StaticReaches(callee, h.P.MatchPred(segFlush)); ok || len(h.P.CallsIn(callee, segFlush)) > 0 {
+						out = append(out, in)
+					}
+				}
+			})
+			return out
+		}
+		type lockEvent struct {
+			in   ssa.Instruction
+			lock string
+		}
+		lockEv := func(g *ssa.Function) []lockEvent {
+			var out []lockEvent
+			for _, o := range ir.LockOps(g) {
+				if (o.Op == "Lock" || o.Op == "RLock") && mayHeld[clean(o.Lock)] {
+					out = append(out, lockEvent{o.Instr, o.Lock})
+				}
+			}
+			ir.Instrs(g, func(in ssa.Instruction) {
+				if c := ir.CallOf(in); c != nil {
+					if callee := c.StaticCallee(); callee != nil && callee != g && inRegion[callee] && locksIn[callee] != "" {
+						out = append(out, lockEvent{in, locksIn[callee]})
+					}
+				}
+			})
+			return out
+		}
+		bad := false
+		for _, g := range region {
+			for _, f := range flushEv(g) {
+				for _, l := range lockEv(g) {
+					if r, path := ir.Reach(ir.Search{From: f, Barrier: drained}, ir.Is(l.in)); r {
+						bad = true
+						h.Bad(rule, "mutex taken after the flush in "+ir.FuncName(g), h.pos(l.in), "the sync loop acquires "+l.lock+" after the flush without having received from the request channel: an appender that holds this mutex while waiting for room in the (bounded) channel and the sync loop wait for each other — the log stops", witness(path))
+					}
 				}
 			}
 		}
